@@ -221,6 +221,36 @@ PROPS = {
                 note="Trusts clang 14 ASan/UBSan, the seam layer (objcopy symbol redirection) and the harness; allocation failure is excluded here (C18); NULL+0 is benign by policy.",
                 technique="deterministic simulation with fault injection (seeded schedules, gaps/close/abort/callback/clock/fs faults) under ASan+UBSan with exact allocation accounting",
                 design_ref="DESIGN.md section 7 C01", rule="seeded chaos plans: grammar traffic, .t captures and mutations of both, every segmentation strategy, legal and illegal interleavings, gaps, close/req-close/abort at arbitrary points, API misuse, scripted callback behaviours, clock and file-layer faults, random points of the configuration lattice. Oracle: no ASan/UBSan report, virtual-CPU budget per call, exact live-allocation set empty after teardown. Non-trivial = run completed >= 1 transaction and contained >= 1 cut or fault; distinct = distinct behaviour signature (hash of the sequence of (direction, parser state before the call, return code, callbacks fired))."),
+    "C02": dict(flavor="san", level="exploration", registered=False,
+                claim="Ground-truth oracle: seeded actors build each message from a structured spec (the reference model never parses bytes) and the reported transactions are compared field by field with what was sent, inside multi-message connections delivered by the simulated wire.",
+                note="Domain is the grammar of DESIGN.md section 4 (CRLF line ends, known methods, token header names, no ':' in response continuation lines, no repeated Content-Length); hostname compared case-insensitively.",
+                technique="deterministic simulation: seeded actors with ground truth + wire schedules; history check of reported transactions against the actors' record",
+                design_ref="DESIGN.md section 7 C02",
+                rule="1-16 well-formed exchanges per connection from the grammar (folded/repeated/many headers, CL/chunked(+ext,+trailers)/close bodies, absolute and origin targets, cookies, Basic/Digest credentials, query and urlencoded body parameters, HEAD/204/304/interim-100), all 9 personalities; half of the runs use one chunk per message, the rest random legal interleavings and chunkings. Every field the spec determines is compared with the reported transaction. Non-trivial/distinct as for C01."),
+    "C04": dict(flavor="san", level="exploration", registered=False,
+                claim="Seeded search over legal interleavings and chunkings of 1-40 tagged exchanges; pairing, order, count, completion after close and the pipelining indicator (computed from the op list with a stated tolerance window) are checked on every run.",
+                note="Legal = every byte of request i is offered before the first byte of response i. The indicator must be set when a whole request line was offered before the previous response began, must not be set when every request began after the previous response began; in between either value is accepted.",
+                technique="deterministic simulation: seeded interleaving/chunking schedules of two actors' streams; history check with unique ids",
+                design_ref="DESIGN.md section 7 C04",
+                rule="N in 1..40 tagged exchanges (id in the request target and in an X-Sim-Id response header), short bodies, all framings, HEAD/204/304/interim 100; random legal interleavings (request bias 20/50/80/100 %) x chunking strategies. Non-trivial/distinct as for C01."),
+    "C06": dict(flavor="san", level="exploration", registered=False,
+                claim="Conservation oracle: bytes handed to the body callbacks equal the entity body the actor sent (per transaction and direction), end-of-body marker before completion, length fields equal the accounting; plus the all-input accounting invariants evaluated in every chaos and well-formed run.",
+                note="Ground-truth half: no content coding, CRLF grammar; message_len for chunked bodies counts from the first chunk-size line through the last-chunk line (htp.h).",
+                technique="deterministic simulation: seeded framings x hostile bodies x wire schedules; conservation check of delivered body bytes against the actor's record",
+                design_ref="DESIGN.md section 7 C06",
+                rule="well-formed exchanges with hostile bodies (CR/LF/NUL, look-alike request/status/chunk-size lines), CL / chunked (sizes 1..n, extensions, trailers) / close-delimited, bodies up to 20 KB; all segmentation strategies and legal interleavings. Non-trivial/distinct as for C01."),
+    "C11": dict(flavor="san", level="exploration", registered=False,
+                claim="Seeded search over spellings, positions, casings, optional white space and wire segmentations of each ambiguity trigger the actor applies to a well-formed request; the corresponding indicator must be set on that transaction and a chunked body must be framed by the chunked coding.",
+                note="One-directional, as the statement is: trigger present => flag set. Untouched messages are counted as controls, never raised. 'Unparseable Content-Length' means no usable number (empty, non-numeric, overflow); libhtp's lenient acceptance of junk around digits is not litigated.",
+                technique="deterministic simulation: seeded actors apply triggers, wire schedules vary segmentation; spec-level predicate => flag on the reported transaction",
+                design_ref="DESIGN.md section 7 C11",
+                rule="19 triggers (TE+CL both orders, two CL same/different, folded CL, chunked on HTTP/1.0, CL empty/non-numeric/overflow, unsupported TE, target host/port differs from Host, Host missing on 1.1, invalid Host header (bad char, empty label, bad port, unclosed IPv6), invalid target host/port) x random header order/casing/OWS among 0-70 other headers x 1-3 exchanges x all segmentation strategies. Non-trivial/distinct as for C01."),
+    "C16": dict(flavor="san", level="exploration", registered=False,
+                claim="Seeded search over CONNECT / upgrade exchanges x response status x what follows x legal interleavings x segmentations; checks suspension of the request side, tunnel mode (TUNNEL for every later call, no callbacks, no new transactions) and exact resumption of HTTP parsing after a refusal or when the tunnel carries plain HTTP.",
+                note="Tunnel payload is modelled as client-speaks-first (the server's tunnel bytes are offered after the client's); TLS-looking payload contains a NUL early, as real handshakes do.",
+                technique="deterministic simulation: two actors around a CONNECT/upgrade, seeded interleaving of the two directions incl. request bytes beyond the CONNECT head before/after the response; history checks on return codes, consumed counts, callbacks and transactions",
+                design_ref="DESIGN.md section 7 C16",
+                rule="0-2 ordinary exchanges, then CONNECT (or GET+Upgrade) with status 200/204/299/101/407/403/502/400/500/302, followed by plain HTTP exchanges, TLS-looking bytes or nothing; request bias 20-100 % (100 = all request bytes first, i.e. beyond the CONNECT head in the same or next chunk); all segmentation strategies. Non-trivial/distinct as for C01."),
     "C03": dict(flavor="san", level="exploration",
                 claim="Differential simulation: the same seeded well-formed history is delivered under two segmentations of the simulated wire and everything the statement lists is compared; exhaustive single-cut sweeps for short histories are visited by consecutive run indices, the rest is seeded sampling.",
                 note="Domain is the CRLF grammar of DESIGN.md section 4 (bare-LF traffic is exercised only under the all-input properties); log messages, connection flags and return codes are not compared.",
